@@ -30,9 +30,12 @@ def same_gated(a, b):
         and type(a) is type(b) and (not hasattr(a, 'channels') or zoo.meta(a) == zoo.meta(b))
 
 
-def make_data(F, rng, ctx, path, nmax):
+def make_data(F, rng, ctx, path, nmax, big=False):
     kind = int(rng.integers(5))
     N = int(rng.choice([0, 1, 2, 3, 5])) if rng.random() < 0.25 else int(rng.integers(0, nmax + 1))
+    if big:
+        # tens of thousands of events (fast paths, pre-filters and chunking engage only here)
+        kind, N = int(rng.choice([0, 1, 3, 3])), int(rng.choice([60001, 100000, 150000]))
     D = int(rng.integers(2, 6))
     if kind == 4:
         # 8-bit sample (uint8 container)
@@ -69,7 +72,7 @@ def run(ctx):
     nmax = 300 if ctx.tier == 'quick' else 2000
     for cid, rng in ctx.cases([('d', i) for i in range(n)]):
         mon.cid = cid
-        data, kind = make_data(F, rng, ctx, path, nmax)
+        data, kind = make_data(F, rng, ctx, path, nmax, big=(cid[1] % 53 == 5))
         N, D = data.shape
         is_s = hasattr(data, 'channels')
 
